@@ -7,6 +7,10 @@ ipv8/community.py) model checked by TLC and bound to the real Community code on 
  T  seeded random schedules of larger worlds (1..5 candidates, concurrent calls, every host following up on its
     introductions) are recorded and validated by TLC against specs/NatWalkTrace.tla, which re-uses the actions of
     NatWalk.tla and evaluates the C13 invariants in every recorded state.
+Histories (both bindings): a NAT loses the mapping of a host while the system is at rest (Rebind; the host shows up
+under a fresh external port and registers again), and hosts start with Lamport clocks around 2^16 (long uptime), so
+that what the introducer hands out / where it sends the puncture request after an address change and the 16 bit
+identifiers on the wire are decided by the same comparison (invariants HandsOutCurrent, HoldsWorking, IdentFits).
 The simulator's NAT boxes are validated by the same comparison (source rewriting, mapping / filter tables, every
 deliver-or-drop decision and its reason)."""
 from __future__ import annotations
@@ -29,6 +33,7 @@ KIND_OF = {246: ("ireq", False), 234: ("ireq", True), 245: ("iresp", False), 233
            250: ("preq", False), 232: ("preq", True), 249: ("punc", False), 231: ("punc", True)}
 DELIVER = {"DeliverIReq": "ireq", "DeliverIResp": "iresp", "DeliverPReq": "preq", "DeliverPunc": "punc"}
 _KEYS = {}
+SMALL_JVM = ("-XX:TieredStopAtLevel=1", "-XX:ParallelGCThreads=2")   # short runs: compiling costs more than it saves
 _ENV = {}
 
 
@@ -83,7 +88,7 @@ class World:
             n = topo["natOf"][h]
             if n != "-" and n not in self.boxes:
                 self.boxes[n] = self.net.nat(topo["kind"][n], ip=topo["extip"][n])
-        self.node, self.ov, self.name_of_key, self.errors = {}, {}, {}, []
+        self.node, self.ov, self.name_of_key, self.errors, self._decoded = {}, {}, {}, [], {}
         for h in self.hosts:
             ip, port = topo["sock"][h]
             n = topo["natOf"][h]
@@ -95,6 +100,8 @@ class World:
             ov._my_estimated_lan = None
             ov.my_estimated_wan = ov.my_estimated_lan          # what EndpointListener.__init__ computes
             ov.logger = _Spy(self.errors, h)
+            if topo.get("gt0", {}).get(h, 0):
+                ov.my_peer.update_clock(topo["gt0"][h])          # uptime before the scenario starts
             self.node[h], self.ov[h] = node, ov
             self.name_of_key[node.my_peer.public_key.key_to_bin()] = h
         self.name_of_ep = {self.node[h].sim_endpoint: h for h in self.hosts}
@@ -135,7 +142,14 @@ class World:
         return out
 
     def inflight(self):
-        return [self.decode(dg) for dg in self.net.inflight]
+        """decoded datagrams in flight (decoded once: a datagram does not change after the NAT has rewritten it)"""
+        out = []
+        for dg in self.net.inflight:
+            dec = self._decoded.get(dg.seq)
+            if dec is None:
+                dec = self._decoded[dg.seq] = self.decode(dg)
+            out.append(dec)
+        return out
 
     def host_state(self, h):
         e = self.e
@@ -155,10 +169,13 @@ class World:
                 "get_peers": by_service, "walkable": sorted(addr(a) for a in ov.get_walkable_addresses())}
 
     def nat_state(self, n):
+        if n not in self.boxes:
+            return {"mapping": [], "allowed": [], "nports": 0}
         box = self.boxes[n]
         return {"mapping": [{"int": addr(i), "port": p} for i, p in box.mapping.items()],
                 "allowed": [{"port": p, "remote": addr(r)} for p, rs in box.allowed.items() for r in rs
-                            if isinstance(r, tuple)]}
+                            if isinstance(r, tuple)],
+                "nports": box.next_port - 20000}
 
     def project(self):
         """The whole world in the shape of the NatWalk.tla variables."""
@@ -166,14 +183,14 @@ class World:
         for h, s in hs.items():
             if sorted(p["k"] for p in s["peers"]) != s["get_peers"]:
                 raise MachineryError("get_peers() differs from the verified peers at %s" % h)
-        nats = {n: (self.nat_state(n) if n in self.boxes else {"mapping": [], "allowed": []})
-                for n in self.topo["kind"]}
+        nats = {n: self.nat_state(n) for n in self.topo["kind"]}
         return {"wan": FrozenDict({h: s["wan"] for h, s in hs.items()}),
                 "peers": FrozenDict({h: frozenset(FrozenDict(p) for p in s["peers"]) for h, s in hs.items()}),
                 "known": FrozenDict({h: frozenset(FrozenDict(k) for k in s["known"]) for h, s in hs.items()}),
                 "gt": FrozenDict({h: s["gt"] for h, s in hs.items()}),
                 "mapping": FrozenDict({n: frozenset(FrozenDict(m) for m in s["mapping"]) for n, s in nats.items()}),
                 "allowed": FrozenDict({n: frozenset(FrozenDict(m) for m in s["allowed"]) for n, s in nats.items()}),
+                "nports": FrozenDict({n: s["nports"] for n, s in nats.items()}),
                 "net": frozenset(FrozenDict(p) for p in self.inflight()),
                 "nsent": self.net.seq}
 
@@ -181,24 +198,49 @@ class World:
     def contact(self, h):
         e = self.e
         ov = self.ov[h]
-        if self.contacted[h] == 0:
-            ov.walk_to(e["UDPv4Address"](*self.topo["sock"]["I"]))
-        else:
-            peer = ov.network.get_verified_by_public_key_bin(self.node["I"].my_peer.public_key.key_to_bin())
-            if peer is None:
-                return "the introducer is not a verified peer of %s" % h
-            ov.send_introduction_request(peer)
-        self.contacted[h] += 1
+        first = self.contacted[h] == 0
+        try:
+            if first:
+                ov.walk_to(e["UDPv4Address"](*self.topo["sock"]["I"]))
+            else:
+                peer = ov.network.get_verified_by_public_key_bin(self.node["I"].my_peer.public_key.key_to_bin())
+                if peer is None:
+                    return "the introducer is not a verified peer of %s" % h
+                ov.send_introduction_request(peer)
+        except Exception as exc:  # noqa: BLE001 - whatever the public call raises is the finding
+            return "%s of %s (global time %d) raised %s: %s" % (
+                "walk_to" if first else "send_introduction_request", h, ov.global_time, type(exc).__name__, exc)
+        finally:
+            self.contacted[h] += 1
         return None
 
     def intro_walk(self, h, a):
         ov = self.ov[h]
         for w in ov.get_walkable_addresses():
             if addr(w) == addr(a):
-                ov.walk_to(w)
                 self.walked[h].add(addr(a))
+                try:
+                    ov.walk_to(w)
+                except Exception as exc:  # noqa: BLE001
+                    return "walk_to(%s) of %s (global time %d) raised %s: %s" % (
+                        addr(a), h, ov.global_time, type(exc).__name__, exc)
                 return None
         return "%s is not among get_walkable_addresses() of %s" % (a, h)
+
+    def can_rebind(self, h):
+        n = self.topo["natOf"][h]
+        return n in self.boxes and any(addr(i) == addr(self.topo["sock"][h]) for i in self.boxes[n].mapping)
+
+    def rebind(self, h):
+        """The NAT in front of h loses h's mapping and filter entries (reboot / expiry); ports are not re-used."""
+        if not self.can_rebind(h):
+            return "%s has no NAT mapping to lose" % h
+        box = self.boxes[self.topo["natOf"][h]]
+        for i in [i for i in box.mapping if addr(i) == addr(self.topo["sock"][h])]:
+            port = box.mapping.pop(i)
+            box.rev.pop(port, None)
+            box.allowed.pop(port, None)
+        return None
 
     def deliver(self, seq):
         """-> (delivered?, decoded datagram, reason, receiving host)"""
@@ -238,7 +280,7 @@ class _Spy:
 def topo_of_state(st):
     return {"natOf": dict(st["natOf"]), "kind": dict(st["kind"]), "sock": {h: addr(a) for h, a in st["sock"].items()},
             "extip": dict(st["extip"]), "priv": sorted(st["priv"]), "walkers": sorted(st["walkers"]),
-            "contacts": dict(st["contacts"])}
+            "contacts": dict(st["contacts"]), "gt0": dict(st["gt"])}
 
 
 def config_key(topo):
@@ -266,6 +308,8 @@ def apply_edge(w, name, args):
         if dec["kind"] != DELIVER[name]:
             return "datagram %d is a %s, specification step is %s" % (args[0], dec["kind"], name)
         return None
+    if name == "Rebind":
+        return w.rebind(args[0])
     if name == "Idle":
         return None
     raise MachineryError("unknown action " + name)
@@ -288,8 +332,8 @@ def fix_coverage(r, module="NatWalk.tla"):
 ACTIONS = ["Contact", "IntroWalk", "DeliverIReq", "DeliverIResp", "DeliverPReq", "DeliverPunc", "Lose", "Idle"]
 
 
-def check_vacuity(r, tag):
-    missing = [a for a in ACTIONS if r.coverage.get(a, (0, 0))[1] == 0]
+def check_vacuity(r, tag, extra=()):
+    missing = [a for a in [*ACTIONS, *extra] if r.coverage.get(a, (0, 0))[1] == 0]
     if missing:
         raise MachineryError("NatWalk %s: actions never taken: %s" % (tag, missing))
 
@@ -387,7 +431,7 @@ def _dump_job(cfgname):
     """side process: model check + dump the state graph; -> (TlcResult, scratch dir holding g.dot)"""
     tmp = scratch_dir("c13-")
     try:
-        r = run_tlc("NatWalk.tla", cfgname, dump=os.path.join(tmp, "g.dot"), deadlock_off=False, coverage=False)
+        r = _run_tlc_again("NatWalk.tla", cfgname, dump=os.path.join(tmp, "g.dot"), deadlock_off=False, coverage=False)
     except BaseException:
         shutil.rmtree(tmp, ignore_errors=True)
         raise
@@ -396,7 +440,7 @@ def _dump_job(cfgname):
     return r, tmp
 
 
-def replay_graph(ctx, dumped, cfgname, tag, max_ops, pool_size):
+def replay_graph(ctx, dumped, cfgname, tag, max_ops, pool_size, history=False):
     r, tmp = dumped
     try:
         if not r.ok:
@@ -408,10 +452,14 @@ def replay_graph(ctx, dumped, cfgname, tag, max_ops, pool_size):
     for (_s, name, _a, _d) in g.edges:
         od, ot = r.coverage.get(name, (0, 0))
         r.coverage[name] = (od + 1, ot + 1)
-    check_vacuity(r, cfgname)
+    check_vacuity(r, cfgname, ("Rebind",) if history else ())
     ctx.add_tlc(tag, r)
     witness_per_config(ctx, g, tag)
-    walks = [(i, init, walk) for i, (init, walk) in enumerate(edge_cover(g, max_ops=max_ops, seed=ctx.seed))]
+    if history:
+        witness_history(ctx, g, tag)
+        walks = history_walks(g, max_ops, ctx.seed)
+    else:
+        walks = [(i, init, walk) for i, (init, walk) in enumerate(edge_cover(g, max_ops=max_ops, seed=ctx.seed))]
     _G.update(g=g, cfg=cfgname)
     # contiguous chunks of walks sorted by configuration: the states of different configurations are disjoint, so
     # every worker parses only its own part of the graph
@@ -485,6 +533,86 @@ def witness_per_config(ctx, g, tag):
     ctx.note("witness_" + tag, {"configurations_with_completed_introduction": len(g.init)})
 
 
+def _reachable_from(g, init):
+    seen, stack = {init}, [init]
+    while stack:
+        s = stack.pop()
+        for ei in g.out.get(s, ()):
+            d = g.edges[ei][3]
+            if d not in seen:
+                seen.add(d)
+                stack.append(d)
+    return seen
+
+
+def witness_history(ctx, g, tag):
+    """Non-vacuity of the history premise: in every configuration with a NAT in front of A or the candidate some
+    completed behaviour contains a mapping loss between two valid (i.ok) introductions of the same pair, the later one
+    at another address - and in every configuration an identifier wraps around 2^16."""
+    idle_src = {s for (s, name, _a, _d) in g.edges if name == "Idle"}
+    configs, wrapped, reintro = set(), set(), set()
+    for init in g.init:
+        topo = topo_of_state(g.states[init])
+        key = config_key(topo)
+        configs.add(key)
+        reach = _reachable_from(g, init)
+        if any(p["kind"] == "ireq" and p["ns"] and p["ident"] < 16
+               for (s, name, _a, d) in g.edges if s in reach and name in ("Contact", "IntroWalk")
+               for p in g.states[d]["net"] - g.states[s]["net"]):
+            wrapped.add(key)
+        if all(topo["natOf"][h] == "-" for h in ("A", "B1")):
+            reintro.add(key)           # nothing to lose
+            continue
+        found = False
+        for s in reach & idle_src:
+            st = g.states[s]
+            if st["nrebind"] == 0:
+                continue
+            ok = [i for i in st["intros"] if i["ok"] and i["req"] in st["walkers"]]
+            if any(i["req"] == j["req"] and i["cand"] == j["cand"] and
+                   (i["candaddr"] != j["candaddr"] or i["reqaddr"] != j["reqaddr"]) for i in ok for j in ok):
+                found = True
+                break
+        if found:
+            reintro.add(key)
+    if configs - reintro:
+        raise MachineryError("NatWalk %s: no re-introduction after a lost mapping reachable in %s"
+                             % (tag, sorted(configs - reintro)[:3]))
+    if configs - wrapped:
+        raise MachineryError("NatWalk %s: no new-style request with a wrapped identifier in %s"
+                             % (tag, sorted(configs - wrapped)[:3]))
+    ctx.note("witness_history_" + tag, {"configurations_with_reintroduction_after_mapping_loss": len(reintro),
+                                        "configurations_with_wrapped_identifier": len(wrapped)})
+
+
+def history_walks(g, max_ops, seed):
+    """Walks of a complete edge cover, those that lose a mapping and those that do not: when the budget does not
+    allow all of them each kind gets half of it, round-robin over the configurations in seeded order."""
+    rng = random.Random(seed)
+    per_init = {}
+    for init, walk in edge_cover(g, max_ops=None, seed=seed):
+        hist = any(g.edges[e][1] == "Rebind" for e in walk)
+        per_init.setdefault(init, ([], []))[0 if hist else 1].append(walk)
+    out = []
+    for which, budget in ((0, None if max_ops is None else max_ops // 2),
+                          (1, None if max_ops is None else max_ops - max_ops // 2)):
+        lists = [(init, per_init[init][which]) for init in sorted(per_init)]
+        for _init, lst in lists:
+            rng.shuffle(lst)
+        used, rnd = 0, 0
+        while budget is None or used < budget:
+            row = [(init, lst[rnd]) for init, lst in lists if rnd < len(lst)]
+            if not row:
+                break
+            for init, walk in row:
+                if budget is not None and used >= budget:
+                    break
+                out.append((len(out), init, walk))
+                used += len(walk)
+            rnd += 1
+    return out
+
+
 # ---------------------------------------------------------------------------------------------------
 # binding T: seeded random schedules of larger worlds, validated by TLC (specs/NatWalkTrace.tla)
 # ---------------------------------------------------------------------------------------------------
@@ -493,7 +621,7 @@ LAN_SCHEMES = [lambda n, i: "192.168.%d.%d" % (n, i), lambda n, i: "10.%d.0.%d" 
 KINDS = ["fullCone", "addrRestricted", "portRestricted"]
 
 
-def random_topology(rng, force=None):
+def random_topology(rng, force=None, history=True):
     k = rng.randint(1, 5)
     cands = ["B%d" % i for i in range(1, k + 1)]
     a_nat = rng.random() < 0.7 or force == "withA"
@@ -531,13 +659,31 @@ def random_topology(rng, force=None):
     contacts = {"I": 0, "A": rng.randint(1, 3)}
     for c in cands:
         contacts[c] = rng.randint(1, 2)
+    # histories: how long every host has been up (Lamport clock, shared by all its overlays) and how many NAT
+    # mappings get lost while the schedule runs (hosts that can lose one register once more afterwards)
+    gt0 = {h: rng.choice(CLOCKS) if history else 0 for h in natof}
+    rebinds = rng.choice([0, 1, 1, 2, 3]) if history and any(n != "-" for n in natof.values()) else 0
+    if rebinds:
+        for h in natof:
+            if natof[h] != "-":
+                contacts[h] += 1
+        contacts["A"] = max(contacts["A"], 3)
     return {"natOf": natof, "kind": kind, "sock": sock, "extip": extip, "priv": priv, "walkers": sorted(walkers),
-            "contacts": contacts}
+            "contacts": contacts, "gt0": gt0, "rebinds": rebinds}
+
+
+CLOCKS = [0, 0, 3, 65531, 65534, 65535, 65536, 131069, 131071, 2 ** 24 - 2, 2 ** 31 - 500]
 
 
 def record_trace(rng, topo, sabotage=None, schedule=None):
     """Run one seeded schedule on a real world. -> trace dict for NatWalkTrace.tla"""
+    topo.setdefault("gt0", {h: 0 for h in topo["natOf"]})
+    topo.setdefault("rebinds", 0)
+    if "rseed" not in topo:
+        topo["rseed"] = rng.getrandbits(32) if schedule is None else 0
+    random.seed(topo["rseed"])        # get_peer_for_introduction() draws from the global generator
     w = World(topo)
+    rebinds = 0
     if sabotage == "no-puncture-request":
         # negative control: the introducer's puncture requests never reach the wire (as if it did not send them)
         ep = w.node["I"].sim_endpoint
@@ -545,11 +691,17 @@ def record_trace(rng, topo, sabotage=None, schedule=None):
         ep.send = lambda a, pkt: None if pkt[22] in (250, 232) else real_send(a, pkt)
     events = []
 
-    def log(ev, host):
+    def log(ev, host, problem=None):
+        if sabotage == "frozen-addresses":
+            # negative control: the introducer never moves a peer it has verified to the address it is seen at now
+            for p in w.ov["I"].network.verified_peers:
+                p.address_frozen = True
+        if problem:
+            ev["raised"] = problem
         ev["emitted"] = [p for p in w.inflight() if p["id"] > log.nsent]
         log.nsent = w.net.seq
         ev["nsent"] = w.net.seq
-        ev["nats"] = {n: (w.nat_state(n) if n in w.boxes else {"mapping": [], "allowed": []}) for n in topo["kind"]}
+        ev["nats"] = {n: w.nat_state(n) for n in topo["kind"]}
         if host is not None:
             ev["host"] = _host_json(w.host_state(host))
         errs = w.handler_errors()
@@ -571,8 +723,11 @@ def record_trace(rng, topo, sabotage=None, schedule=None):
         choices = [("deliver", p["id"]) for p in inflight]
         calls = []
         ikey = w.node["I"].my_peer.public_key.key_to_bin()
+        hold = rebinds < topo["rebinds"] and not forced
         for h in w.hosts:
             if h != "I" and w.contacted[h] < topo["contacts"][h]:
+                if hold and 1 <= w.contacted[h] == topo["contacts"][h] - 1:
+                    continue       # every host keeps its last request until the mappings have been lost
                 if w.contacted[h] == 0 or w.ov[h].network.get_verified_by_public_key_bin(ikey) is not None:
                     calls.append(("contact", h))
         if all(p["kind"] not in ("preq", "punc") for p in inflight):
@@ -580,6 +735,17 @@ def record_trace(rng, topo, sabotage=None, schedule=None):
                 for a in sorted(addr(x) for x in w.ov[h].get_walkable_addresses()):
                     if a not in w.walked[h]:
                         calls.append(("walk", h, a))
+        if hold and not inflight and not any(c[0] == "walk" for c in calls):
+            # the system is at rest: a NAT may lose a mapping now (preferably of a host that registers again)
+            cands = [h for h in w.hosts if w.can_rebind(h)]
+            again = [h for h in cands if w.contacted[h] < topo["contacts"][h]]
+            for h in (again or cands):
+                calls.append(("rebind", h))
+            if not calls:
+                rebinds = topo["rebinds"]      # nothing to lose: go on with the requests held back
+                continue
+        if forced:       # a stored schedule says itself when a mapping is lost (TLC judges whether it may be)
+            calls += [("rebind", h) for h in w.hosts if w.can_rebind(h)]
         if not choices and not calls:
             break
         if forced:
@@ -595,11 +761,12 @@ def record_trace(rng, topo, sabotage=None, schedule=None):
         else:
             ch = rng.choice(calls)
         if ch[0] == "contact":
-            w.contact(ch[1])
-            log({"act": "Contact", "h": ch[1]}, ch[1])
+            log({"act": "Contact", "h": ch[1]}, ch[1], w.contact(ch[1]))
         elif ch[0] == "walk":
-            w.intro_walk(ch[1], ch[2])
-            log({"act": "IntroWalk", "h": ch[1], "a": list(ch[2])}, ch[1])
+            log({"act": "IntroWalk", "h": ch[1], "a": list(ch[2])}, ch[1], w.intro_walk(ch[1], ch[2]))
+        elif ch[0] == "rebind":
+            rebinds += 1
+            log({"act": "Rebind", "h": ch[1]}, ch[1], w.rebind(ch[1]))
         else:
             ok, _dec, fate, rcv = w.deliver(ch[1])
             if ok:
@@ -611,6 +778,18 @@ def record_trace(rng, topo, sabotage=None, schedule=None):
                        "world": {h: _host_json(w.host_state(h)) for h in w.hosts}})
     verdict = {h: sorted(p["k"] for p in w.host_state(h)["peers"]) for h in w.hosts}
     return {"topo": topo, "events": events, "get_peers": verdict}
+
+
+def _record_batch(args):
+    """one batch of seeded schedules (thorough tier: batches are recorded side by side in forked workers)"""
+    seed, b, per = args
+    rng = random.Random(seed * 1000003 + b)
+    batch = []
+    for i in range(per):
+        force = ["withA", "nat", "pub", "withI"][i % 4] if b == 0 and i < 8 else None
+        # two of three worlds have a history (lost mappings, long uptimes), the others are static
+        batch.append(record_trace(rng, random_topology(rng, force, history=i % 3 != 2)))
+    return batch
 
 
 def run_schedule(topo, schedule):
@@ -626,6 +805,7 @@ def run_schedule(topo, schedule):
             want = self.items[0]
             for o in options:
                 if (want["act"] == "Contact" and o[0] == "contact" and o[1] == want["h"]) or \
+                   (want["act"] == "Rebind" and o[0] == "rebind" and o[1] == want["h"]) or \
                    (want["act"] == "IntroWalk" and o[0] == "walk" and o[1] == want["h"] and list(o[2]) == list(want["a"])) or \
                    (want["act"] in ("Deliver", "Lose") and o[0] == "deliver" and o[1] == want["id"]):
                     self.items.pop(0)
@@ -651,8 +831,12 @@ def replay_file(path):
                 sched.append({"act": "Contact", "h": args[0]})
             elif name == "IntroWalk":
                 sched.append({"act": "IntroWalk", "h": args[0], "a": args[1]})
+            elif name == "Rebind":
+                sched.append({"act": "Rebind", "h": args[0]})
             elif name != "Idle":
                 sched.append({"act": "Deliver", "id": args[0]})
+    topo.setdefault("gt0", {h: 0 for h in topo["natOf"]})
+    topo["rebinds"] = sum(1 for e in sched if e["act"] == "Rebind")
     trace = record_trace(None, topo, schedule=sched)
     rc = 0
     complete = len([e for e in trace["events"] if e["act"] != "Final"]) >= len(sched)
@@ -680,12 +864,42 @@ def _validate_job(args):
         path = os.path.join(tmp, "traces.json")
         with open(path, "w", encoding="utf-8") as f:
             f.write(traces_json)
-        r = run_tlc("NatWalkTrace.tla", cfg, env={"TRACE_FILE": path}, coverage=False)
+        r = run_tlc("NatWalkTrace.tla", cfg, env={"TRACE_FILE": path}, coverage=False, java_opts=SMALL_JVM)
     finally:
         shutil.rmtree(tmp, ignore_errors=True)
+    if not r.ok and not r.error_trace:
+        # "violated by the initial state": TLC prints that state without a numbered header
+        mt, ml = re.search(r"/\\ tid = (\d+)", r.output), re.search(r"/\\ l = (\d+)", r.output)
+        if mt and ml:
+            r.error_trace = [("Initial predicate", {"tid": int(mt.group(1)), "l": int(ml.group(1))})]
     r.output = r.output[-4000:]
     r.error_trace = [(lbl, {k: v for k, v in st.items() if k in ("tid", "l")}) for lbl, st in r.error_trace]
     return r
+
+
+def _rejected_job(args):
+    """Several traces that are all expected to be rejected, judged in ONE TLC run (-continue):
+    -> [(violated invariant, trace number)] in the order TLC reports them"""
+    traces_json, cfg = args
+    if traces_json == "[]":
+        return []
+    tmp = scratch_dir("c13c-")
+    try:
+        path = os.path.join(tmp, "traces.json")
+        with open(path, "w", encoding="utf-8") as f:
+            f.write(traces_json)
+        # one worker: the reports of several violations must not interleave
+        r = run_tlc("NatWalkTrace.tla", cfg, env={"TRACE_FILE": path}, coverage=False, continue_=True,
+                    java_opts=SMALL_JVM, workers=1)
+    finally:
+        shutil.rmtree(tmp, ignore_errors=True)
+    parts = re.split(r"Error: Invariant (\w+) is violated", r.output)
+    out = []
+    for i in range(1, len(parts), 2):
+        m = re.search(r"/\\ tid = (\d+)", parts[i + 1])
+        if m and (parts[i], int(m.group(1))) not in out:
+            out.append((parts[i], int(m.group(1))))
+    return out
 
 
 BRIEF = ("act", "h", "id", "a", "why")
@@ -712,7 +926,15 @@ def judge_traces(ctx, traces, r, tag, strict):
                    "Reach": "an introduced peer and the requester did NOT become verified peers of each other",
                    "LanMeetAtEnd": "peers behind the same NAT did not connect over their LAN addresses",
                    "LanMeet": "peers behind the same NAT did not connect over their LAN addresses",
-                   "AsksPuncture": "the introducer handed out a peer without asking it to puncture towards the requester"}
+                   "AsksPuncture": "the introducer handed out a peer without asking it to puncture towards the requester",
+                   "HandsOutCurrent": "the introducer handed out (and sent its puncture request to) an address the "
+                                      "introduced peer is no longer reachable at, although that peer has registered "
+                                      "from its present address since",
+                   "HoldsWorking": "after its contact attempt the requester holds the introduced peer at an address "
+                                   "that peer is not reachable at",
+                   "HoldsWorkingAtEnd": "after its contact attempt the requester holds the introduced peer at an "
+                                        "address that peer is not reachable at",
+                   "IdentFits": "a message carries an identifier that does not fit the 16 bit field of the wire format"}
         what = "C13 violated on the real overlays (%s): %s; get_peers() at the end: %s" % (
             r.violated, meaning.get(r.violated, r.violated), json.dumps(bad["get_peers"]) if bad else "?")
         sig = "property:%s" % r.violated
@@ -746,6 +968,50 @@ def corrupt(trace, how):
                 s["peers"] = s["peers"][1:]
                 return t
         return None
+    if how == "stale-address":
+        # after a lost mapping the introducer is claimed to keep the requester's / candidate's first address
+        before, prev = {}, None
+        for e in t["events"]:
+            if e["act"] == "Rebind" and prev is not None:
+                n = t["topo"]["natOf"][e["h"]]
+                for m in prev["nats"][n]["mapping"]:
+                    if m["int"] == list(t["topo"]["sock"][e["h"]]):
+                        before[e["h"]] = [t["topo"]["extip"][n], m["port"]]
+            if e["act"] == "Deliver" and e["h"] == "I":
+                for p in e["host"]["peers"]:
+                    if p["k"] in before and p["addr"] != before[p["k"]]:
+                        p["addr"] = before[p["k"]]
+                        return t
+            if "nats" in e:
+                prev = e
+        return None
+    if how == "stale-held":
+        # (for the validation of behaviour as observed) a requester that has been handed the candidate's present
+        # address is claimed never to move the candidate to it: every state it logs keeps the first address
+        first = {}      # (holder, peer) -> first address logged
+        changed = False
+        states = [e["host"] for e in t["events"] if e.get("h") == "A" and "host" in e] + [t["events"][-1]["world"]["A"]]
+        for st in states:
+            for p in st["peers"]:
+                if p["k"] == "I" or t["topo"]["natOf"][p["k"]] in ("-", t["topo"]["natOf"]["A"]):
+                    continue
+                old = first.setdefault(p["k"], p["addr"])
+                if p["addr"] != old:
+                    # get_walkable_addresses(): introduced addresses that are not the address of a verified peer
+                    if any(k["a"] == p["addr"] and k["by"] for k in st["known"]) and p["addr"] not in st["walkable"]:
+                        st["walkable"] = sorted([*st["walkable"], p["addr"]])
+                    st["walkable"] = [a for a in st["walkable"] if a != old]
+                    p["addr"] = old
+                    changed = True
+        return t if changed else None
+    if how == "wide-identifier":
+        # a request is claimed to carry the unreduced Lamport clock
+        for e in t["events"]:
+            for p in e.get("emitted", []):
+                if p["kind"] == "ireq" and e["host"]["gt"] > 65535:
+                    p["ident"] = e["host"]["gt"]
+                    return t
+        return None
     if how == "lan-as-wan":
         # the requester keeps only the LAN candidate of an introduced peer behind another NAT
         for e in t["events"]:
@@ -756,9 +1022,19 @@ def corrupt(trace, how):
     raise MachineryError(how)
 
 
+def _run_tlc_again(module, cfg, **kw):
+    """run_tlc, once more when the JVM was killed from outside (the machine's OOM killer picks the largest process)"""
+    try:
+        return run_tlc(module, cfg, **kw)
+    except MachineryError as exc:
+        if "rc=-9" not in str(exc):
+            raise
+    return run_tlc(module, cfg, **kw)
+
+
 def _tlc_job(args):
     module, cfg, kw = args
-    r = run_tlc(module, cfg, **kw)
+    r = _run_tlc_again(module, cfg, **kw)
     r = fix_coverage(r) if module == "NatWalk.tla" else r
     r.output = r.output[-4000:]
     r.error_trace = [(lbl, _j(st)) for lbl, st in r.error_trace]    # FrozenDict does not survive pickling
@@ -771,29 +1047,43 @@ def run(tier, seed, replay=None):
     if replay:
         return replay_file(replay)
     real_t0 = vloop._REAL_TIME()
+
+    def tick(what):
+        if os.environ.get("C13_TIMING"):
+            print("  [%6.1fs] %s" % (vloop._REAL_TIME() - real_t0, what), flush=True)
     ctx = Ctx(PID, tier, seed, "model_checking")
     ctx.cov["rule"] = ("TLC enumerates every NAT type x placement x style configuration and every delivery order of the "
-                       "introduction / puncture exchange; every transition of the state graph is executed on real "
+                       "introduction / puncture exchange, with one lost NAT mapping (the host registers again from a "
+                       "fresh port) and Lamport clocks passing 2^16; every transition of the state graph is executed on real "
                        "Community objects behind simulated NAT boxes and the projected state compared; non-trivial = "
                        "distinct (configuration, walk) pairs and distinct recorded schedules")
-    ctx.assumptions += ["cone NATs only (endpoint-independent mapping, no mapping expiry, no hair-pinning)",
+    ctx.assumptions += ["cone NATs only (endpoint-independent mapping, no hair-pinning); a NAT loses a mapping only "
+                        "while the system is at rest (nothing in flight, every introduction followed up) and never "
+                        "hands out the external port of a lost mapping again; an introduction counts for the "
+                        "property when the introduced peer has registered at the introducer since its last mapping loss",
                         "the introducer is publicly reachable; a follow-up walk starts after the puncture exchange "
                         "of all pending introductions has drained (premise of the property)",
                         "datagrams may be reordered arbitrarily but the wire itself loses none (only NAT boxes drop)",
                         "key vault signatures and the wire codec are trusted (used to decode datagrams in flight)"]
-    rng = random.Random(seed)
     cpus = os.cpu_count() or 4
     quick = tier == "quick"
     mc = {"deadlock_off": False, "coverage": True}
-    jobs = {"ctl_nopuncture": ("NatWalk.tla", "NatWalk_ctl_nopuncture.cfg", {"deadlock_off": False, "coverage": False}),
-            "ctl_early": ("NatWalk.tla", "NatWalk_ctl_early.cfg", {"deadlock_off": False, "coverage": False}),
-            }
+    ctl_kw = {"deadlock_off": False, "coverage": False, "java_opts": SMALL_JVM}
+    # negative controls at specification level: not on the critical path, started once the first graph is there
+    ctl_jobs = {"ctl_nopuncture": ("NatWalk.tla", "NatWalk_ctl_nopuncture.cfg", ctl_kw),
+                "ctl_early": ("NatWalk.tla", "NatWalk_ctl_early.cfg", ctl_kw),
+                "ctl_norefresh": ("NatWalk.tla", "NatWalk_ctl_norefresh.cfg", dict(ctl_kw, deadlock_off=True)),
+                "ctl_wideident": ("NatWalk.tla", "NatWalk_ctl_wideident.cfg", ctl_kw)}
+    jobs = {}
     if not quick:
         jobs["k2"] = ("NatWalk.tla", "NatWalk_k2.cfg", dict(mc, timeout=3000))
         jobs["k1_followall"] = ("NatWalk.tla", "NatWalk_k1_all.cfg", dict(mc, timeout=3000))
         jobs["k1_concurrent21"] = ("NatWalk.tla", "NatWalk_k1_conc21.cfg", dict(mc, timeout=3000))
         jobs["k2_followall"] = ("NatWalk.tla", "NatWalk_k2_all.cfg", dict(mc, timeout=3000))
-    side = multiprocessing.get_context("fork").Pool(len(jobs) + 9)
+        jobs["k1_history2"] = ("NatWalk.tla", "NatWalk_k1_hist2.cfg", dict(mc, timeout=3000))
+        jobs["ctl_norefresh_addr"] = ("NatWalk.tla", "NatWalk_ctl_norefresh_addr.cfg",
+                                      {"deadlock_off": True, "coverage": False})
+    side = multiprocessing.get_context("fork").Pool(len(jobs) + len(ctl_jobs) + 7)
     try:
         dumps = {c: side.apply_async(_dump_job, (c,)) for c in ("NatWalk_k1.cfg", "NatWalk_k1_conc.cfg")}
         pending = {k: side.apply_async(_tlc_job, (v,)) for k, v in jobs.items()}
@@ -801,44 +1091,77 @@ def run(tier, seed, replay=None):
         # ---- T (recording): seeded schedules on real worlds; TLC validates them while the replay runs
         nbatch, per = (1, 24) if quick else (4, 300)
         batches = []
+        recorded = [side.apply_async(_record_batch, ((seed, b, per),)) for b in range(1, nbatch)]
         for b in range(nbatch):
-            batch = []
-            for i in range(per):
-                force = ["withA", "nat", "pub", "withI"][i % 4] if b == 0 and i < 8 else None
-                batch.append(record_trace(rng, random_topology(rng, force)))
+            batch = _record_batch((seed, b, per)) if b == 0 else recorded[b - 1].get()
             tj = json.dumps(_j(batch))
             batches.append((batch, side.apply_async(_validate_job, ((tj, "NatWalkTrace.cfg"),)),
                             side.apply_async(_validate_job, ((tj, "NatWalkTrace_obs.cfg"),))))
         traces = [t for b in batches for t in b[0]]
+        tick("schedules recorded")
         for t in traces:
-            for ev in t["events"]:
+            for li, ev in enumerate(t["events"]):
                 if "handler_error" in ev:
                     ctx.violation("trace:handler-raised", "a message handler raised: %s" % ev["handler_error"],
                                   {"topology": t["topo"]})
-        ctl = {}
-        for how in ("nat-kind", "puncture-target", "forgot-peer", "lan-as-wan"):
+                if "raised" in ev:
+                    # (TLC rejects the trace as well: the specification's step transmits a request here)
+                    ctx.violation("trace:call-raised", "the requester's contact attempt sends nothing: %s; "
+                                  "configuration %s" % (ev["raised"], config_key(t["topo"])),
+                                  {"topology": t["topo"], "event_index": li + 1,
+                                   "schedule": [{k: v for k, v in e.items() if k in BRIEF}
+                                                for e in t["events"][:li + 1]]})
+        ctl = []
+        for how in ("nat-kind", "puncture-target", "forgot-peer", "lan-as-wan", "stale-address", "wide-identifier"):
             bad = next((c for c in (corrupt(t, how) for t in traces) if c is not None), None)
+            spare = HISTORY_TOPOLOGY if how in ("stale-address", "wide-identifier") else SABOTAGE_TOPOLOGY
             for k in range(200 if bad is None else 0):   # no recorded world offers the situation: make one
-                bad = corrupt(record_trace(random.Random(seed + 1000 + k), SABOTAGE_TOPOLOGY), how)
+                bad = corrupt(record_trace(random.Random(seed + 1000 + k), dict(spare)), how)
                 if bad is not None:
                     break
-            ctl[how] = None if bad is None else side.apply_async(_validate_job,
-                                                                 ((json.dumps(_j([bad])), "NatWalkTrace.cfg"),))
+            ctl.append((how, bad))      # None: this tree does not offer the situation (judged with the verdict)
+        ctl_json = json.dumps(_j([b for _h, b in ctl if b is not None]))
         for k in range(200):   # a schedule in which I really introduces B1 to the requester A
-            sab = record_trace(random.Random(seed + 1 + k), SABOTAGE_TOPOLOGY, sabotage="no-puncture-request")
+            sab = record_trace(random.Random(seed + 1 + k), dict(SABOTAGE_TOPOLOGY), sabotage="no-puncture-request")
             if any(p["kind"] == "iresp" and p["from"] == "I" and addr(p["iwan"]) != ZERO
                    and p["dst"][0] == SABOTAGE_TOPOLOGY["extip"]["A"]
                    for ev in sab["events"] for p in ev.get("emitted", [])):
                 break
         else:
-            raise MachineryError("no schedule of the sabotage control contains an introduction")
-        ctl_sab = side.apply_async(_validate_job, ((json.dumps(_j([sab])), "NatWalkTrace_obs_reach.cfg"),))
+            sab = None
+        for k in range(200):   # a schedule in which a host that lost its mapping registers again and is handed out
+            frozen = record_trace(random.Random(seed + 1 + k), dict(HISTORY_TOPOLOGY), sabotage="frozen-addresses")
+            if reintroduced_after_rebind(frozen):
+                break
+        else:
+            frozen = None
+        obs_ctl = [("ReachAtEnd", sab), ("HandsOutCurrent", frozen)]
+        for inv, how in (("HoldsWorkingAtEnd", "stale-held"), ("IdentFits", "wide-identifier")):
+            # (stale-held on the one-candidate world: there the requester can only have learned the other address
+            # from a valid introduction, which is what HoldsWorking speaks about)
+            bad = next((c for c in (corrupt(t, how) for t in traces) if c is not None), None) if how != "stale-held" else None
+            for k in range(200 if bad is None else 0):
+                bad = corrupt(record_trace(random.Random(seed + 2000 + k), dict(HISTORY_TOPOLOGY)), how)
+                if bad is not None:
+                    break
+            obs_ctl.append((inv, bad))
+        obs_json = json.dumps(_j([b for _i, b in obs_ctl if b is not None]))
 
         # ---- R: the K=1 state graph on the real code
         workers = max(2, cpus - (6 if quick else 8))
+        tick("controls prepared")
         try:
-            replay_graph(ctx, dumps["NatWalk_k1_conc.cfg"].get(), "NatWalk_k1_conc.cfg", "k1_concurrent", None, workers)
-            replay_graph(ctx, dumps["NatWalk_k1.cfg"].get(), "NatWalk_k1.cfg", "k1", 30000 if quick else None, workers)
+            first = dumps["NatWalk_k1_conc.cfg"].get()
+            tick("k1_conc graph there")
+            ctl_fut = side.apply_async(_rejected_job, ((ctl_json, "NatWalkTrace.cfg"),))
+            ctl_obs = side.apply_async(_rejected_job, ((obs_json, "NatWalkTrace_obs_reach.cfg"),))
+            pending.update({k: side.apply_async(_tlc_job, (v,)) for k, v in ctl_jobs.items()})
+            replay_graph(ctx, first, "NatWalk_k1_conc.cfg", "k1_concurrent", None, workers)
+            tick("k1_conc replayed")
+            d = dumps["NatWalk_k1.cfg"].get()
+            tick("k1 graph there")
+            replay_graph(ctx, d, "NatWalk_k1.cfg", "k1", 32000 if quick else None, workers, history=True)
+            tick("k1 replayed")
         finally:
             for fut in dumps.values():
                 try:
@@ -864,17 +1187,35 @@ def run(tier, seed, replay=None):
                                   "candidates": sorted({len(t["topo"]["natOf"]) - 2 for t in traces}),
                                   "follow_all": sum(1 for t in traces if len(t["topo"]["walkers"]) > 1),
                                   "drops_by_reason": _drop_stats(traces),
+                                  "lost_mappings": sum(1 for t in traces for e in t["events"] if e["act"] == "Rebind"),
+                                  "reintroduced_after_lost_mapping": sum(1 for t in traces
+                                                                         if reintroduced_after_rebind(dict(t, topo={"natOf": "123"}))),
+                                  "requests_with_wrapped_identifier": sum(
+                                      1 for t in traces for e in t["events"] for p in e.get("emitted", [])
+                                      if p["kind"] == "ireq" and e["host"]["gt"] > 65535),
                                   "datagrams_by_kind_and_style": _style_stats(traces)})
         if ok_strict:
-            for how, fut in ctl.items():
-                if fut is None:
-                    raise MachineryError("no recorded trace offers the situation for control %r" % how)
-                ctx.control("trace corrupted by %s is rejected" % how, not fut.get().ok)
+            rejected = {tid for _inv, tid in ctl_fut.get()}
+            tid = 0
+            for how, bad in ctl:
+                tid += bad is not None
+                ctx.control("trace corrupted by %s is rejected" % how if bad is not None else
+                            "no schedule of the real overlays offers the situation for the control %s" % how,
+                            bad is not None and tid in rejected)
         if ok_obs:
-            rs = ctl_sab.get()
-            ctx.control("an introducer whose puncture requests are suppressed is reported by the property-level "
-                        "validation (%s)" % rs.violated, rs.violated == "ReachAtEnd")
+            seen = ctl_obs.get()
+            what = ["an introducer whose puncture requests are suppressed",
+                    "an introducer that keeps the first address of its peers after their NAT mapping was lost",
+                    "a requester that keeps the first address of an introduced peer after contacting its present one",
+                    "an introduction request carrying the unreduced Lamport clock as identifier"]
+            tid = 0
+            for i, (inv, bad) in enumerate(obs_ctl):
+                tid += bad is not None
+                ctx.control("%s is reported by the property-level validation (%s)" % (what[i], inv) if bad is not None
+                            else "no schedule of the real overlays offers the situation for the control: %s" % what[i],
+                            bad is not None and (inv, tid) in seen)
 
+        tick("trace verdicts and controls in")
         # ---- spec-level runs that went on in the background
         for k, fut in pending.items():
             r = fut.get()
@@ -882,6 +1223,16 @@ def run(tier, seed, replay=None):
                 ctx.control("specification without the puncture request violates Reach", r.violated == "Reach")
             elif k == "ctl_early":
                 ctx.control("follow-up walk racing the puncture violates Reach", r.violated == "Reach")
+            elif k == "ctl_norefresh":
+                ctx.control("specification in which a verified peer's address is not refreshed violates the history "
+                            "invariants after a lost mapping (%s)" % r.violated,
+                            r.violated in ("Reach", "HandsOutCurrent", "HoldsWorking"))
+            elif k == "ctl_norefresh_addr":
+                ctx.control("specification in which a verified peer's address is not refreshed violates HoldsWorking",
+                            r.violated == "HoldsWorking")
+            elif k == "ctl_wideident":
+                ctx.control("specification with unreduced identifiers violates IdentFits once the clock passes 2^16",
+                            r.violated == "IdentFits")
             else:
                 if not r.ok:
                     raise MachineryError("NatWalk %s: TLC reports %s on the specification itself" % (k, r.violated))
@@ -901,6 +1252,32 @@ SABOTAGE_TOPOLOGY = {"natOf": {"I": "-", "A": "A", "B1": "B1"},
                      "sock": {"I": ("80.0.0.1", 8090), "A": ("192.168.1.2", 8091), "B1": ("10.11.0.2", 8101)},
                      "extip": {"A": "90.0.0.1", "B1": "90.0.0.11"}, "priv": ["10.11.0.2", "192.168.1.2"],
                      "walkers": ["A"], "contacts": {"I": 0, "A": 2, "B1": 1}}
+
+
+HISTORY_TOPOLOGY = {"natOf": {"I": "-", "A": "A", "B1": "B1"},
+                    "kind": {"A": "portRestricted", "B1": "addrRestricted"},
+                    "sock": {"I": ("80.0.0.1", 8090), "A": ("192.168.1.2", 8091), "B1": ("10.11.0.2", 8101)},
+                    "extip": {"A": "90.0.0.1", "B1": "90.0.0.11"}, "priv": ["10.11.0.2", "192.168.1.2"],
+                    "walkers": ["A"], "contacts": {"I": 0, "A": 3, "B1": 3},
+                    "gt0": {"I": 131070, "A": 65533, "B1": 65535}, "rebinds": 2}
+
+
+def reintroduced_after_rebind(trace):
+    """Does I hand out a host after that host lost a mapping and I processed a later request of it?"""
+    sender, lost, back = {}, set(), set()
+    for e in trace["events"]:
+        for p in e.get("emitted", []):
+            sender[p["id"]] = (p["from"], p["kind"])
+        if e["act"] == "Rebind":
+            lost.add(e["h"])
+            back.discard(e["h"])
+        if e["act"] == "Deliver" and e["h"] == "I" and sender.get(e["id"], ("", ""))[1] == "ireq":
+            req = sender[e["id"]][0]
+            if req in lost:
+                back.add(req)
+            if any(p["kind"] == "iresp" and addr(p["iwan"]) != ZERO for p in e["emitted"]) and (back - {req}):
+                return len(trace["topo"]["natOf"]) == 3      # one candidate: the other host is the one handed out
+    return False
 
 
 def _style_stats(traces):
